@@ -40,7 +40,7 @@ TEXT = {
     "C07": "what cancel_group/cancel_all do (frame, forgotten name), what a spawner does at its next step for each placement of the cancellation, and the invariant over all histories that a spawner cancelled while suspended or not yet begun has created no task and pulled no element since and is over or still doomed (nothing un-cancels it); cancel_group / cancel_all record that cancellation for every live spawner concerned, and after every continuation of the history the call's counters and task count are unchanged (step relation Mono: every step only moves forward)",
     "C08": "step-level theorems of the stages of gather_and_close (collecting gather waits for the last child, closing step, until_closed); closed stays closed after every continuation of the history (so every later request is rejected); for every history the count of every gather is exact (world-level invariant over the ready queue), so a gather completes only when all its child tasks have finished; the count is an equality (no callback slot is ever dropped), hence at quiescence every flush() / gather_and_close() call has returned and until_closed() waits only for a pool that is not closed",
     "C09": "complete decision tables of the spawning calls, full state equality on rejection, lock/unlock algebra",
-    "C10": "get_group_ids spec, freshness of generated names (pigeonhole; assumes decimal rendering injective), membership of new tasks",
+    "C10": "get_group_ids spec, freshness of generated names (pigeonhole; decimal rendering of naturals proved injective), membership of new tasks",
     "C11": "ids are list indices: new id = number of tasks created, never reused (after every continuation of a history a pool has at least as many tasks), pools independent, class-level indices distinct for every history",
     "C12": "a failing worker takes the same ending path (slot released, filed as ended); collecting gathers cannot raise; reported exception is a child's",
     "C13": "flush never forgets a task that still holds its slot, for every history without gather_and_close and any number of overlapping flushes (FlushOK invariant); exact effect of flush's last step; collecting flush cannot raise; every flush() has returned at quiescence",
